@@ -1,0 +1,13 @@
+//go:build verif
+
+package mastership
+
+import (
+	"github.com/onosproject/onos-config/pkg/store/topo"
+	configurationstore "github.com/onosproject/onos-config/pkg/store/v3/configuration"
+)
+
+// NewReconcilerForVerif exposes the reconciler to the verification harness
+func NewReconcilerForVerif(topo topo.Store, configurations configurationstore.Store) *Reconciler {
+	return &Reconciler{topo: topo, configurations: configurations}
+}
